@@ -150,9 +150,10 @@ func Generate(o Options) (*Result, error) {
 				needVsched = true
 				res.Notes = append(res.Notes, fmt.Sprintf("%s: go statement rewritten to a controlled thread", pkg.Fset.Position(n.Pos())))
 			case *ast.SelectorExpr:
-				if id, ok := n.X.(*ast.Ident); ok && n.Sel.Name == "NumCPU" {
+				if id, ok := n.X.(*ast.Ident); ok && (n.Sel.Name == "NumCPU" || n.Sel.Name == "GOMAXPROCS") {
 					if pn, ok := pkg.TypesInfo.Uses[id].(*types.PkgName); ok && pn.Imported().Path() == "runtime" {
-						edits = append(edits, edit{off(n.Pos()), off(n.End()), "vsched.NumCPU"})
+						// the number of processors is an environment answer the explorer decides
+						edits = append(edits, edit{off(n.Pos()), off(n.End()), "vsched." + n.Sel.Name})
 						needVsched = true
 						keepRuntime = true
 					}
